@@ -314,8 +314,8 @@ theorem buildWt_kind (reg : Reg) (hreg : ∀ id, reg.custom id = none) (n : Nat)
           · rename_i ci hbi; cases hb
             simp only [allocOK, Bool.and_eq_true] at hal
             simp only [heq, GoType.wf, Bool.and_eq_true] at hswf
-            have hks : isStringKind key = true := by
-              simp [isStringKind, hkey]
+            have hks : isStringKey key = true := by
+              simp [isStringKey, hkey]
             simp [wt, heq, hks, ih.build _ _ _ _ hbi hswf.2 hal.2]
           · cases hb
         · simp at hb
